@@ -100,6 +100,13 @@ def main():
                 ctx.hooked_binary = hexe
         forbidden = rqlib.scan_forbidden()
         proof = rqlib.check_obligations(prop)
+        if args.tier == "thorough" and not proof["failed"]:
+            ok_chk, chk = rqlib.coqchk(prop)
+            proof["coqchk"] = chk
+            if not ok_chk:
+                proof["failed"] = proof["obligations"]
+                proof["discharged"] = []
+                proof["error"] = "coqchk: " + chk["tail"]
     ctx.proof = proof
     ctx.params = params
     if forbidden:
@@ -142,6 +149,8 @@ def main():
                 "theorems": proof["obligations"], "print_assumptions": proof["assumptions"],
                 "anchors_not_found": params.get("anchors_not_found", []),
                 "known_findings_reconfirmed": ctx.known})
+    if proof.get("coqchk"):
+        cov["coqchk"] = {"cmd": proof["coqchk"]["cmd"], "axioms": proof["coqchk"]["axioms"]}
     cov.setdefault("evaluations", 0)
     cov.setdefault("distinct_nontrivial", 0)
     cov.setdefault("samples", [])
